@@ -501,6 +501,11 @@ func checkSourceErrorsWrapped(p *Program, r *Result, pkgs []string) {
 							continue
 						}
 					}
+					// a read from a key-derivation stream (io.ReadFull(hkdf.New(..), key)) is no
+					// read of the file
+					if len(call.Call.Args) > 0 && strings.HasPrefix(short(tb.Term(call.Call.Args[0]).String()), "hkdf.New(") {
+						continue
+					}
 					fromSource = true
 				}
 			}
